@@ -1,6 +1,8 @@
 (* Model of the consumer lifecycle of the provider (properties C10 and C11):
      x/ccv/provider/keeper/permissionless.go   FetchAndIncrementConsumerId, phases, IsConsumerActive/Prelaunched
-     x/ccv/provider/keeper/msg_server.go       CreateConsumer, UpdateConsumer, RemoveConsumer, OptIn (phase check only)
+     x/ccv/provider/keeper/msg_server.go       CreateConsumer, UpdateConsumer (including the repair of finding C10-F1: a
+                                               chain-id-only update whose revision does not match the stored initial
+                                               height is rejected), RemoveConsumer, OptIn (phase check only)
      x/ccv/provider/keeper/consumer_lifecycle.go  PrepareConsumerForLaunch, InitializeConsumer, BeginBlockLaunchConsumers,
                                                ConsumeIdsFromTimeQueue, LaunchConsumer, CreateConsumerClient, MakeConsumerGenesis,
                                                StopAndPrepareForConsumerRemoval, BeginBlockRemoveConsumers, DeleteConsumerChain,
